@@ -2,6 +2,7 @@ package types
 
 import (
 	"fmt"
+	"testing"
 
 	"github.com/onflow/cadence/sema"
 
@@ -41,5 +42,14 @@ func typeStr(t sema.Type) string {
 func addClasses(rec *evid.Rec, prefix string, t sema.Type) {
 	for _, c := range tgen.Classes(t) {
 		rec.Class(prefix + c)
+	}
+}
+
+// requireClasses checks generator health inside the test only for unsharded
+// runs; in sharded runs a rare class may be absent from one shard, and the
+// driver checks the merged histogram instead (require_classes in props.d).
+func requireClasses(t testing.TB, rec *evid.Rec, labels ...string) {
+	if evid.Shards() == 1 {
+		rec.RequireClasses(t, labels...)
 	}
 }
